@@ -274,16 +274,22 @@ func runJournal(t *sim.T, which string) *sim.Violation {
 	if !cfg.Nyct {
 		cfg.ExplicitTime = true
 	}
-	w := gen.NewWorld(t, cfg)
 	nFeeds := 1 + t.Weighted(6, 6, 5, 5, 4, 4, 3, 3, 2, 2, 2, 2, 1, 1, 1, 1, 1, 1, 1, 1)
 	if t.Chance(1, 10) {
 		nFeeds = t.Range(20, 40)
 	}
-	long := t.Chance(1, 150)
+	long := t.Chance(1, 120)
 	if long {
-		nFeeds = t.Range(100, 300) // state that builds up over hundreds of feeds
+		nFeeds = t.Range(100, 600) // state that builds up over hundreds of feeds
 		t.Probe("long-history")
+		// trains keep appearing, and unassigned ones get their vehicle, all along the history
+		cfg.Horizon = nFeeds
+		cfg.Trips = t.Range(8, 30)
+		if cfg.FlapAssign > 1 {
+			cfg.FlapAssign = 1
+		}
 	}
+	w := gen.NewWorld(t, cfg)
 	var published [][]byte
 	for i := 0; i < nFeeds; i++ {
 		published = append(published, gen.MarshalFeed(w.Tick()))
